@@ -19,6 +19,7 @@ func init() {
 		Assumptions: []string{"sync.WaitGroup semantics; a buffered channel of capacity n accepts n sends without a receiver"},
 		Run:         runC17,
 		Controls: []Control{
+			{Name: "onoff-group-cancel-deferred-past-the-wait", File: "pkg/trait/onoffpb/group.go", Old: "\t\t\t\tcancelFunc()\n\t\t\t\t<-returnErr", New: "\t\t\t\tdefer cancelFunc()\n\t\t\t\t<-returnErr", Expect: "R17.10"},
 			{Name: "write-under-read-strategy", File: "pkg/trait/lightpb/group.go", Old: "\tresults, err := group.Execute(ctx, s.WriteExecution, actions)\n", New: "\tresults, err := group.Execute(ctx, s.ReadExecution, actions)\n", Expect: "R17.9"},
 			{Name: "fast-loop-variable-hoisted", File: "pkg/group/exec.go", Old: "\tvar firstErrResponse *memberResponse\n\tfor response := range executeEach(cancelCtx, members) {", New: "\tvar firstErrResponse *memberResponse\n\tvar response memberResponse\n\tfor response = range executeEach(cancelCtx, members) {", Expect: "R17.5"},
 			{Name: "drain-deferred-after-cancel", File: "pkg/group/exec.go", Old: "func ExecuteRace(ctx context.Context, members []Member) (proto.Message, int, error) {\n\tcancelCtx, cancelFunc := context.WithCancel(ctx)\n\tdefer cancelFunc()\n", New: "func ExecuteRace(ctx context.Context, members []Member) (proto.Message, int, error) {\n\tcancelCtx, cancelFunc := context.WithCancel(ctx)\n\tdefer cancelFunc()\n\tdrainCh := make(chan memberResponse)\n\tclose(drainCh)\n\tdefer func() {\n\t\tfor range drainCh {\n\t\t}\n\t}()\n", Expect: "R17.8"},
@@ -44,6 +45,8 @@ const groupPkg = "pkg/group"
 func runC17(c *an.Ctx) {
 	r179(c, "R17.9")
 	c.Min("R17.9", 6)
+	r1710(c, "R17.10")
+	c.Min("R17.10", 2)
 	r177(c)
 	r178(c)
 	c.Min("R17.8", 3)
@@ -1203,4 +1206,60 @@ func hasAnyPrefix(s string, ps ...string) bool {
 		}
 	}
 	return false
+}
+
+// r1710: a group handler that stops to wait for its members (`<-returnErr` after a failed Send) has cancelled them
+// first. The members only end when their context does; the wait is a plain receive, so it must be dominated by a
+// call - not a deferred one, which would run after the wait - of the cancel function of the context the members
+// run under. Otherwise the call and every member goroutine hang for as long as the caller's context lives.
+func r1710(c *an.Ctx, rule string) {
+	n := 0
+	for _, fn := range c.Prog.FuncsIn("pkg/trait") {
+		if fn.Parent() != nil || !strings.HasSuffix(c.Prog.RelFile(fn.Pos()), "/group.go") {
+			continue
+		}
+		var cancels []ssa.Value
+		an.Instrs(fn, func(in ssa.Instruction) {
+			if ex, ok := in.(*ssa.Extract); ok && ex.Index == 1 {
+				if call, isC := ex.Tuple.(*ssa.Call); isC && an.CalleeName(call) == "context.WithCancel" {
+					cancels = append(cancels, ex)
+				}
+			}
+		})
+		if len(cancels) == 0 {
+			continue
+		}
+		isCancelCall := func(in ssa.Instruction) bool {
+			call, ok := in.(*ssa.Call)
+			if !ok {
+				return false
+			}
+			for _, s := range an.Sources(call.Call.Value) {
+				for _, k := range cancels {
+					if s == k {
+						return true
+					}
+				}
+			}
+			return false
+		}
+		ord := 0
+		an.Instrs(fn, func(in ssa.Instruction) {
+			rcv, ok := in.(*ssa.UnOp)
+			if !ok || rcv.Op != token.ARROW {
+				return
+			}
+			ord++
+			n++
+			cancelled := false
+			an.Instrs(fn, func(x ssa.Instruction) {
+				if isCancelCall(x) && an.Dominates(x, rcv) {
+					cancelled = true
+				}
+			})
+			c.Check(cancelled, rule, fmt.Sprintf("%s|wait #%d for the members follows their cancellation", an.FuncName(fn), ord), rcv.Pos(), "dominated by a call of the members' cancel function",
+				"the handler waits for its members without having cancelled their context first (a deferred cancel runs only after the wait): the members never end, so the call and their goroutines hang until the caller's own context ends")
+		})
+	}
+	c.Count("member_waits", n)
 }
